@@ -175,3 +175,199 @@ Definition handle (line : str) : str :=
   | [] => S_ "badrequest"
   | cmd :: ts => match handle_oracle cmd ts with Some r => r | None => S_ "badrequest" end
   end.
+
+(* ====================================================================================
+   End-to-end requests: a project tree (parsed YAML documents) + a command line. *)
+Require Import Laze.model.Path Laze.model.Hash Laze.model.Ninja Laze.model.Ctx Laze.model.Resolver
+        Laze.model.Imports Laze.model.Generate Laze.model.Load.
+
+Definition rd_bool : rd bool := fun ts =>
+  match ts with
+  | t :: r => if str_eqb t (S_ "1") then Some (true, r) else if str_eqb t (S_ "0") then Some (false, r) else None
+  | [] => None end.
+
+(* "-" or "+" payload *)
+Definition rd_optP {A} (p : rd A) : rd (option A) := fun ts =>
+  match ts with
+  | t :: r => if str_eqb t (S_ "-") then Some (None, r)
+              else if str_eqb t (S_ "+") then rd_bind p (fun a => rd_ret (Some a)) r
+              else None
+  | [] => None end.
+
+Definition rd_export : rd export_spec := rd_bind rd_s (fun k => rd_bind rd_opt (fun v => rd_ret (k, v))).
+
+Definition rd_rule : rd rule :=
+  rd_bind rd_s (fun name => rd_bind rd_s (fun cmd => rd_bind rd_opt (fun i => rd_bind rd_opt (fun o =>
+  rd_bind rd_opt (fun gd => rd_bind rd_opt (fun rf => rd_bind rd_opt (fun rc => rd_bind rd_opt (fun pool =>
+  rd_bind rd_opt (fun desc => rd_bind (rd_optlist rd_export) (fun ex => rd_bind rd_bool (fun al =>
+  rd_bind rd_bool (fun sh =>
+  rd_ret {| r_name := name; r_cmd := cmd; r_in := i; r_out := o; r_gcc_deps := gd; r_rspfile := rf;
+            r_rspfile_content := rc; r_pool := pool; r_description := desc; r_export := ex;
+            r_always := al; r_shareable := sh |})))))))))))).
+
+Definition rd_ytask : rd ytask :=
+  rd_bind (rd_list rd_s) (fun cmd => rd_bind (rd_optlist rd_s) (fun rv => rd_bind (rd_optlist rd_s) (fun rm =>
+  rd_bind (rd_optlist rd_export) (fun ex => rd_bind rd_bool (fun b => rd_bind rd_opt (fun wd =>
+  rd_ret {| yt_cmd := cmd; yt_required_vars := rv; yt_required_modules := rm; yt_export := ex;
+            yt_build := b; yt_workdir := wd |})))))).
+Definition rd_named_task : rd (str * ytask) := rd_bind rd_s (fun n => rd_bind rd_ytask (fun t => rd_ret (n, t))).
+
+Definition rd_yctx : rd yctx :=
+  rd_bind rd_s (fun name => rd_bind rd_opt (fun parent => rd_bind (rd_optP rd_env) (fun e =>
+  rd_bind (rd_optlist rd_s) (fun sel => rd_bind (rd_optlist rd_s) (fun dis =>
+  rd_bind (rd_optlist rd_s) (fun prov => rd_bind (rd_optlist rd_s) (fun pu =>
+  rd_bind (rd_optlist rd_rule) (fun rules => rd_bind (rd_optlist rd_mergeopt) (fun vo =>
+  rd_bind (rd_optlist rd_named_task) (fun tasks => rd_bind rd_bool (fun isb =>
+  rd_ret {| yc_name := name; yc_parent := parent; yc_env := e; yc_selects := sel; yc_disables := dis;
+            yc_provides := prov; yc_provides_unique := pu; yc_rules := rules; yc_var_options := vo;
+            yc_tasks := tasks; yc_is_builder := isb |}))))))))))).
+
+Definition rd_keyvals : rd (str * list str) := rd_bind rd_s (fun k => rd_bind (rd_list rd_s) (fun v => rd_ret (k, v))).
+Definition rd_depspec : rd depspec := fun ts =>
+  match ts with
+  | t :: r => if str_eqb t (S_ "S") then rd_bind rd_s (fun s => rd_ret (DStr s)) r
+              else if str_eqb t (S_ "M") then rd_bind (rd_list rd_keyvals) (fun kvs => rd_ret (DMap kvs)) r
+              else None
+  | [] => None end.
+Definition rd_ctxspec : rd ctxspec := fun ts =>
+  match ts with
+  | t :: r => if str_eqb t (S_ "N") then Some (CNone, r)
+              else if str_eqb t (S_ "S") then rd_bind rd_s (fun s => rd_ret (CSingle s)) r
+              else if str_eqb t (S_ "L") then rd_bind (rd_list rd_s) (fun l => rd_ret (CList l)) r
+              else None
+  | [] => None end.
+Definition rd_custom : rd custom_build :=
+  rd_bind rd_opt (fun gd => rd_bind (rd_list rd_s) (fun cmd => rd_bind (rd_optlist rd_s) (fun out =>
+  rd_ret {| cb_gcc_deps := gd; cb_cmd := cmd; cb_out := out |}))).
+
+Definition rd_ymod : rd ymod :=
+  rd_bind rd_opt (fun name => rd_bind rd_ctxspec (fun ctx =>
+  rd_bind (rd_optlist rd_depspec) (fun depends => rd_bind (rd_optlist rd_depspec) (fun selects =>
+  rd_bind (rd_optlist rd_s) (fun uses => rd_bind (rd_optlist rd_s) (fun prov =>
+  rd_bind (rd_optlist rd_s) (fun pu => rd_bind (rd_optlist rd_s) (fun confl =>
+  rd_bind rd_bool (fun na => rd_bind (rd_optlist rd_depspec) (fun sources =>
+  rd_bind (rd_optlist rd_named_task) (fun tasks => rd_bind (rd_optP rd_custom) (fun build =>
+  rd_bind (rd_optP rd_env) (fun el => rd_bind (rd_optP rd_env) (fun ee => rd_bind (rd_optP rd_env) (fun eg =>
+  rd_bind (rd_optlist rd_s) (fun bl => rd_bind (rd_optlist rd_s) (fun al =>
+  rd_bind rd_opt (fun srcdir => rd_bind rd_bool (fun ibd => rd_bind rd_bool (fun igbd =>
+  rd_ret {| ym_name := name; ym_context := ctx; ym_depends := depends; ym_selects := selects; ym_uses := uses;
+            ym_provides := prov; ym_provides_unique := pu; ym_conflicts := confl; ym_notify_all := na;
+            ym_sources := sources; ym_tasks := tasks; ym_build := build; ym_env_local := el;
+            ym_env_export := ee; ym_env_global := eg; ym_blocklist := bl; ym_allowlist := al;
+            ym_srcdir := srcdir; ym_is_build_dep := ibd; ym_is_global_build_dep := igbd |})))))))))))))))))))).
+
+(* modules:/apps: key:  "-" absent, "0" present but null, "+" list *)
+Definition rd_modlist : rd (option (option (list ymod))) := fun ts =>
+  match ts with
+  | t :: r => if str_eqb t (S_ "-") then Some (None, r)
+              else if str_eqb t (S_ "0") then Some (Some None, r)
+              else if str_eqb t (S_ "+") then rd_bind (rd_list rd_ymod) (fun l => rd_ret (Some (Some l))) r
+              else None
+  | [] => None end.
+
+Definition rd_ydoc : rd ydoc :=
+  rd_bind (rd_optlist rd_yctx) (fun cs => rd_bind (rd_optlist rd_yctx) (fun bs =>
+  rd_bind rd_modlist (fun ms => rd_bind rd_modlist (fun apps =>
+  rd_bind (rd_optlist rd_s) (fun inc => rd_bind (rd_optlist rd_s) (fun sub =>
+  rd_bind (rd_optP rd_ymod) (fun dm => rd_bind (rd_optP rd_ymod) (fun da =>
+  rd_ret {| d_contexts := cs; d_builders := bs; d_modules := ms; d_apps := apps; d_includes := inc;
+            d_subdirs := sub; d_defaults_module := dm; d_defaults_app := da |})))))))).
+
+Definition rd_yfile : rd (str * list ydoc) := rd_bind rd_s (fun f => rd_bind (rd_list rd_ydoc) (fun ds => rd_ret (f, ds))).
+Definition rd_ytree : rd ytree := rd_list rd_yfile.
+
+Definition rd_selector : rd selector := fun ts =>
+  match ts with
+  | t :: r => if str_eqb t (S_ "*") then Some (SelAll, r)
+              else rd_bind (rd_list rd_s) (fun l => rd_ret (SelSome l)) ts
+  | [] => None end.
+
+Record cli := {
+  cl_le : lazeenv; cl_builders : selector; cl_apps : selector; cl_local : option str;
+  cl_select : list str; cl_disable : list str; cl_define : list str;
+  cl_partition : option (bool * N * N) }.   (* (is_count, m, n) *)
+
+Definition rd_partition : rd (option (bool * N * N)) := fun ts =>
+  match ts with
+  | t :: r => if str_eqb t (S_ "-") then Some (None, r)
+              else if str_eqb t (S_ "count") then rd_bind rd_n (fun m => rd_bind rd_n (fun n => rd_ret (Some (true, m, n)))) r
+              else None
+  | [] => None end.
+
+Definition rd_cli : rd cli :=
+  rd_bind rd_s (fun bd => rd_bind rd_s (fun pr => rd_bind rd_s (fun lb =>
+  rd_bind rd_selector (fun bs => rd_bind rd_selector (fun apps => rd_bind rd_opt (fun local =>
+  rd_bind (rd_list rd_s) (fun sel => rd_bind (rd_list rd_s) (fun dis => rd_bind (rd_list rd_s) (fun def =>
+  rd_bind rd_partition (fun part =>
+  rd_ret {| cl_le := {| le_build_dir := bd; le_project_root := pr; le_laze_bin := lb |};
+            cl_builders := bs; cl_apps := apps; cl_local := local; cl_select := sel; cl_disable := dis;
+            cl_define := def; cl_partition := part |})))))))))).
+
+(* main.rs: --select strings -> dependencies; -D assignments -> env *)
+Definition cli_selects (c : cli) : res (list dep) := rmapM dependency_from_string (cl_select c).
+Definition cli_env (c : cli) : res (option env) :=
+  match cl_define c with
+  | [] => Ok None
+  | l => rmap Some (fold_left (fun acc a => rbind acc (fun e => assign_from_string e a)) l (Ok []))
+  end.
+
+Definition show_list (l : list str) : str :=
+  show_dec (N.of_nat (length l)) ++ flat_map (fun s => " "%char :: hex s) l.
+
+Definition show_nobuild (w : nobuild) : str :=
+  match w with NotAllowed => S_ "notallowed" | NotAncestor => S_ "notancestor"
+             | Unresolved => S_ "unresolved" | BuildDepCycle => S_ "cycle" end.
+
+Definition show_build_info (i : build_info) : str :=
+  S_ " B " ++ hex (bi_builder i) ++ S_ " " ++ hex (bi_binary i) ++ S_ " " ++ hex (bi_out i) ++ S_ " " ++
+  show_list (bi_modules i) ++ S_ " " ++ show_list (bi_build_order i) ++ S_ " " ++
+  show_dec (N.of_nat (length (bi_tasks i))) ++
+  flat_map (fun nt => " "%char :: hex (fst nt) ++ match snd nt with inl _ => S_ " ok" | inr _ => S_ " err" end)
+           (sort_by_key (bi_tasks i)).
+
+Definition show_gen (g : gen_result) : str :=
+  S_ "ok " ++ show_dec (N.of_nat (length (gr_builds g))) ++ flat_map show_build_info (gr_builds g) ++
+  S_ " N " ++ show_dec (N.of_nat (length (gr_nobuilds g))) ++
+  flat_map (fun x => S_ " " ++ hex (fst (fst x)) ++ S_ " " ++ hex (snd (fst x)) ++ S_ " " ++ show_nobuild (snd x))
+           (gr_nobuilds g) ++
+  S_ " F " ++ hex (gr_file g).
+
+(* the count: partitioner of task_partitioner: the k-th (1-based) of n takes items i with i mod n = k-1 *)
+Definition run_gen (EVt : str -> option str) (t : ytree) (c : cli) : res gen_result :=
+  rbind (load t (S_ "laze-project.yml")) (fun b =>
+  rbind (cli_selects c) (fun sel =>
+  rbind (cli_env c) (fun cenv =>
+  generate siphash13 EVt b (cl_le c) (cl_builders c) (cl_apps c) (cl_local c) (fun _ _ => true)
+           sel (cl_disable c) cenv))).
+
+Definition handle_e2e (cmd : str) (ts : list str) : option str :=
+  if str_eqb cmd (S_ "gen") then
+    Some (run (rd_bind rd_ytree (fun t => rd_bind rd_cli (fun c => rd_bind rd_evtable (fun ev => rd_ret (t, c, ev))))) ts
+              (fun '(t, c, ev) => show_res show_gen (run_gen ev t c)))
+  else if str_eqb cmd (S_ "hashbytes") then
+    Some (run rd_s ts (fun s => S_ "ok " ++ show_dec (siphash13 s)))
+  else if str_eqb cmd (S_ "hashpaths") then
+    Some (run (rd_list rd_s) ts (fun l => S_ "ok " ++ show_dec (hash_paths l)))
+  else if str_eqb cmd (S_ "path") then
+    Some (run (rd_bind rd_raw (fun op => rd_bind (rd_list rd_s) (fun args => rd_ret (op, args)))) ts
+              (fun '(op, args) =>
+                 let a := nth 0 args [] in let b := nth 1 args [] in
+                 if str_eqb op (S_ "push") then S_ "ok " ++ hex (path_push a b)
+                 else if str_eqb op (S_ "ext") then S_ "ok " ++ match extension a with Some e => hex e | None => S_ "-" end
+                 else if str_eqb op (S_ "withext") then S_ "ok " ++ hex (with_extension a b)
+                 else if str_eqb op (S_ "parent") then S_ "ok " ++ hex (parent a)
+                 else if str_eqb op (S_ "startswith") then S_ "ok " ++ (if path_starts_with a b then S_ "1" else S_ "0")
+                 else if str_eqb op (S_ "sort") then S_ "ok " ++ show_list (sort_paths args)
+                 else if str_eqb op (S_ "ncomp") then S_ "ok " ++ show_dec (N.of_nat (length (components a)))
+                 else S_ "badrequest"))
+  else None.
+
+Definition handle2 (line : str) : str :=
+  match tokens line with
+  | [] => S_ "badrequest"
+  | cmd :: ts =>
+      match handle_oracle cmd ts with
+      | Some r => r
+      | None => match handle_e2e cmd ts with Some r => r | None => S_ "badrequest" end
+      end
+  end.
